@@ -798,6 +798,10 @@ def quad_case(case, stream):
         o2, s2, _, _ = simulate(c2, stream=R.Stream(stream.u64()))
         if o2['outcome'] != 'returned':
             return [('quad-cache-build', '2D build: %s' % o2)], probes
+    # the reference works on private copies taken before dadi's quadrature code has touched the caches: an integrate() that
+    # modified the cache it reads would otherwise drag the reference along with it
+    rc1 = copy.deepcopy(s1)
+    rc2 = copy.deepcopy(s2) if s2 is not None else None
     theta = q['theta']
     n1, P1, n2, P2 = q['pdf1'], q['params1'], q['pdf2'], q['params2']
     f1, f2 = getattr(PDFs, n1), getattr(PDFs, n2)
@@ -831,7 +835,7 @@ def quad_case(case, stream):
         for cl in q['clauses']:
             if cl in ('int1', 'int1_noext'):
                 ext = cl == 'int1'
-                ref, tol, info = Q.ref1d(s1, P1, n1, theta, ext)
+                ref, tol, info = Q.ref1d(rc1, P1, n1, theta, ext)
                 got = call(s1.integrate, list(P1), None, f1, theta, None, exterior_int=ext)
                 chk(cl, got, ref, tol, 'pdf=%s%r' % (n1, P1))
                 got1 = call(s1.integrate, np.array(P1), None, f1, 1.0, None, exterior_int=ext)
@@ -849,7 +853,7 @@ def quad_case(case, stream):
                 for order in (('gamma', 'lognormal', 'beta'), ('lognormal', 'beta', 'gamma')):
                     for nm in order:
                         for ext in (True, False):
-                            ref, tol, info = Q.ref1d(s1, pv, nm, theta, ext)
+                            ref, tol, info = Q.ref1d(rc1, pv, nm, theta, ext)
                             got = call(s1.integrate, list(pv), None, getattr(PDFs, nm), theta, None, exterior_int=ext)
                             chk('two_pdfs', got, ref, tol, 'pdf=%s%r after other pdfs at the same parameters' % (nm, pv))
             elif cl == 'pp1':
@@ -858,7 +862,7 @@ def quad_case(case, stream):
                     if npos == 2 and len(adds) < 2:
                         continue
                     pars = list(P1) + ([q['ppos'], q['gpos']] if npos == 1 else [q['ppos'], adds[0], q['ppos2'], adds[1]])
-                    ref, tol, info = Q.ref_point_pos_1d(s1, pars, n1, theta, npos)
+                    ref, tol, info = Q.ref_point_pos_1d(rc1, pars, n1, theta, npos)
                     got = call(s1.integrate_point_pos, pars, None, f1, theta, None, npos)
                     chk('pp1', got, ref, tol, 'Npos=%d params=%r theta=%r' % (npos, pars, theta))
             elif cl == 'pp1_uncached':
@@ -868,14 +872,14 @@ def quad_case(case, stream):
                 gq = q['uncached_gpos']
                 pos = dadi.Numerics.make_extrap_func(func)(tuple(c1['model']['params']) + (gq,), c1['model']['ns'], c1['model']['pts'])
                 for th in (theta, 1.0, 7.0):     # a history: the same query under different theta
-                    base, tol, info = Q.ref1d(s1, P1, n1, th, True)
+                    base, tol, info = Q.ref1d(rc1, P1, n1, th, True)
                     ref = (1 - q['ppos']) * base + q['ppos'] * th * np.ma.getdata(pos)
                     got = call(sc.integrate_point_pos, list(P1) + [q['ppos'], gq], None, f1, th, func, 1)
                     chk('pp1_uncached', got, ref, (1 - q['ppos']) * tol + 1e-11 * np.abs(ref),
                         'gammapos=%r not cached, theta=%r (call sequence thetas %r)' % (gq, th, (theta, 1.0, 7.0)))
             elif cl in ('int2', 'int2_noext'):
                 ext = cl == 'int2'
-                ref, tol, info = Q.ref2d(s2, P2, n2, theta, ext)
+                ref, tol, info = Q.ref2d(rc2, P2, n2, theta, ext)
                 got = call(s2.integrate, list(P2), None, f2, theta, None, exterior_int=ext)
                 chk(cl, got, ref, tol, 'pdf=%s%r' % (n2, P2))
                 if ext:
@@ -885,32 +889,32 @@ def quad_case(case, stream):
                         probes['W_minus_1_2d'] = info['w_in'] + sum(info['edges']) + sum(info['corners']) - 1.0
             elif cl == 'pp2':
                 pars = list(P2) + [q['ppos'], q['gpos'], q['ppos2'], c2['additional_gammas'][0]]
-                ref, tol, info = Q.ref_point_pos_2d(s2, pars, n2, theta, q['rho'])
+                ref, tol, info = Q.ref_point_pos_2d(rc2, pars, n2, theta, q['rho'])
                 got = call(s2.integrate_point_pos, pars, None, f2, theta, q['rho'], None)
                 chk('pp2', got, ref, tol, 'params=%r rho=%r' % (pars, q['rho']))
                 probes['quadrant_sum'] = info.get('quadrant_sum')
             elif cl == 'spp2' and n2 == 'biv_lognormal':
                 pars = list(P2) + [q['ppos'], q['gpos']]
                 full = list(P2) + [q['ppos'], q['gpos'], q['ppos'], q['gpos']]
-                ref, tol, info = Q.ref_point_pos_2d(s2, full, n2, theta, P2[-1])
+                ref, tol, info = Q.ref_point_pos_2d(rc2, full, n2, theta, P2[-1])
                 got = call(s2.integrate_symmetric_point_pos, pars, None, f2, theta, None)
                 chk('spp2', got, ref, tol, 'params=%r' % (pars,))
             elif cl == 'mix' and q['mix_ok'] and n2 == 'biv_lognormal' and len(P2) == 3:
                 # shared (mu, sigma); then rho; then p2d
                 pars = list(P2[:2]) + [P2[2], q['p2d']]
-                r1, t1, _ = Q.ref1d(s1, P2[:2], 'lognormal', theta, True)
-                r2, t2, _ = Q.ref2d(s2, P2, n2, theta, True)
+                r1, t1, _ = Q.ref1d(rc1, P2[:2], 'lognormal', theta, True)
+                r2, t2, _ = Q.ref2d(rc2, P2, n2, theta, True)
                 ref = (1 - q['p2d']) * r1 + q['p2d'] * r2
                 got = call(DFE.mixture, pars, None, s1, s2, PDFs.lognormal, f2, theta, None)
                 chk('mix', got, ref, (1 - q['p2d']) * t1 + q['p2d'] * t2, 'params=%r' % (pars,))
-                r1, t1, _ = Q.ref1d(s1, P2[:2], 'lognormal', theta, False)
-                r2, t2, _ = Q.ref2d(s2, P2, n2, theta, False)
+                r1, t1, _ = Q.ref1d(rc1, P2[:2], 'lognormal', theta, False)
+                r2, t2, _ = Q.ref2d(rc2, P2, n2, theta, False)
                 got = call(DFE.mixture, pars, None, s1, s2, PDFs.lognormal, f2, theta, None, False)
                 chk('mix/noext', got, (1 - q['p2d']) * r1 + q['p2d'] * r2, (1 - q['p2d']) * t1 + q['p2d'] * t2)
             elif cl == 'mix_spp' and q['mix_ok'] and n2 == 'biv_lognormal' and len(P2) == 3:
                 pars = list(P2[:2]) + [P2[2], q['ppos'], q['gpos'], q['p2d']]
-                r1, t1, _ = Q.ref_point_pos_1d(s1, list(P2[:2]) + [q['ppos'], q['gpos']], 'lognormal', theta, 1)
-                r2, t2, _ = Q.ref_point_pos_2d(s2, list(P2) + [q['ppos'], q['gpos'], q['ppos'], q['gpos']], n2, theta, P2[2])
+                r1, t1, _ = Q.ref_point_pos_1d(rc1, list(P2[:2]) + [q['ppos'], q['gpos']], 'lognormal', theta, 1)
+                r2, t2, _ = Q.ref_point_pos_2d(rc2, list(P2) + [q['ppos'], q['gpos'], q['ppos'], q['gpos']], n2, theta, P2[2])
                 if r1 is not None and r2 is not None:
                     ref = (1 - q['p2d']) * r1 + q['p2d'] * r2
                     got = call(DFE.Cache2D_mod.mixture_symmetric_point_pos, pars, None, s1, s2, PDFs.lognormal, f2, theta, None)
@@ -918,14 +922,14 @@ def quad_case(case, stream):
             elif cl == 'mix_pp' and q['mix_ok'] and n2 == 'biv_lognormal' and len(P2) == 3:
                 g2 = c2['additional_gammas'][0]
                 pars = list(P2[:2]) + [P2[2], q['ppos'], q['gpos'], q['ppos2'], g2, q['p2d']]
-                r1, t1, _ = Q.ref_point_pos_1d(s1, list(P2[:2]) + [q['ppos'], q['gpos']], 'lognormal', theta, 1)
+                r1, t1, _ = Q.ref_point_pos_1d(rc1, list(P2[:2]) + [q['ppos'], q['gpos']], 'lognormal', theta, 1)
                 got = call(DFE.Cache2D_mod.mixture_point_pos, pars, None, s1, s2, PDFs.lognormal, f2, theta, None)
                 # the docstring fixes the weights of the 1-D and 2-D components and which parameters each
                 # receives; it does not say whether the quadrant-coupling rho of Cache2D.integrate_point_pos
                 # is the distribution's rho or its default 0, so either is accepted
                 cands = []
                 for rr in (P2[2], 0.0):
-                    r2, t2, _ = Q.ref_point_pos_2d(s2, list(P2) + [q['ppos'], q['gpos'], q['ppos2'], g2], n2, theta, rr)
+                    r2, t2, _ = Q.ref_point_pos_2d(rc2, list(P2) + [q['ppos'], q['gpos'], q['ppos2'], g2], n2, theta, rr)
                     if r1 is not None and r2 is not None:
                         cands.append(((1 - q['p2d']) * r1 + q['p2d'] * r2, (1 - q['p2d']) * t1 + q['p2d'] * t2))
                 if cands:
@@ -935,7 +939,7 @@ def quad_case(case, stream):
                         best = min(cands, key=lambda c: Q.exceeds(got, c[0], c[1]))
                         chk('mix_pp', got, best[0], best[1], 'params=%r' % (pars,))
             elif cl == 'vourlaki' and q['mix_ok'] and q['gpos'] > 0:
-                ref, tol = Q.vourlaki_ref(s1, s2, q['vourlaki'], theta)
+                ref, tol = Q.vourlaki_ref(rc1, rc2, q['vourlaki'], theta)
                 got = call(DFE.Vourlaki_mixture, list(q['vourlaki']), None, s1, s2, theta, None)
                 chk('vourlaki', got, ref, tol, 'params=%r' % (q['vourlaki'],))
             elif cl == 'index_errors':
@@ -959,6 +963,14 @@ def quad_case(case, stream):
                     b0 = getattr(PDFs, name + '_py')(float(xs[0]), float(ys[0]), pp)
                     if isinstance(a0, BaseException) or not np.allclose(a0, b0, rtol=1e-9, atol=1e-300):
                         viol.append(('quadrature:pdfs', 'compiled %s scalar call differs' % name))
+    for nm, live, ref0 in (('Cache1D', s1, rc1), ('Cache2D', s2, rc2)):
+        if live is None:
+            continue
+        a, b = np.asarray(live.spectra), np.asarray(ref0.spectra)
+        n = min(len(a), len(b))
+        if a.shape[1:] != b.shape[1:] or len(a) < len(b) or not np.array_equal(a[:n], b[:n], equal_nan=True) \
+                or not np.array_equal(np.asarray(live.gammas)[:len(ref0.gammas)], np.asarray(ref0.gammas)):
+            viol.append(('quadrature:cache-modified', '%s.spectra / gammas were changed by integrate*/mixture calls (clauses %s)' % (nm, q['clauses'])))
     return viol, probes
 
 
